@@ -1,7 +1,7 @@
 #!/bin/bash
 # MANIFEST.setup_cmd: nothing is built from /repo here (every check rebuilds it); only verify the tools exist.
 set -e
-for t in java gcc strace /usr/bin/python3 cmake ninja; do command -v $t >/dev/null || { echo "missing tool: $t"; exit 1; }; done
+for t in java gcc clang apalache-mc /usr/bin/python3 cmake ninja; do command -v $t >/dev/null || { echo "missing tool: $t"; exit 1; }; done
 test -f /opt/veriftools/tla/tla2tools.jar
 /usr/bin/python3 -c "import bz2"
 mkdir -p /verif/evidence
